@@ -974,8 +974,18 @@ class FnTranslator:
         return self.expr(value_expr, env, withv)
 
     def s_Assign(self, s, rest, env, ctx):
-        if len(s.targets) != 1:
-            self.bad(s, "chained assignment")
+        if len(s.targets) > 1:
+            # t1 = t2 = e : e is evaluated once, then assigned to t1, then to t2
+            if any(isinstance(t, (ast.Tuple, ast.List)) for t in s.targets):
+                self.bad(s, "chained assignment with tuple targets")
+            self.ntmp += 1
+            tmpn = f"chain{self.ntmp}_"
+            seq = [ast.Assign(targets=[ast.Name(id=tmpn, ctx=ast.Store())], value=s.value)]
+            seq += [ast.Assign(targets=[t], value=ast.Name(id=tmpn, ctx=ast.Load())) for t in s.targets]
+            for nd in seq:
+                ast.copy_location(nd, s)
+                ast.fix_missing_locations(nd)
+            return self.block(seq + rest, env, ctx)
         t = s.targets[0]
         if isinstance(t, (ast.Tuple, ast.List)):
             v = s.value
@@ -1227,6 +1237,27 @@ class FnTranslator:
                 iter=ast.Call(func=ast.Name(id="range", ctx=ast.Load()),
                               args=[ast.Call(func=ast.Name(id="len", ctx=ast.Load()), args=[seq], keywords=[])], keywords=[]),
                 body=pre + list(s.body), orelse=[]), s)
+            ast.fix_missing_locations(new)
+            return self.s_For(new, rest, env, ctx)
+        if (isinstance(it, ast.Call) and isinstance(it.func, ast.Name) and it.func.id == "reversed" and len(it.args) == 1
+                and not it.keywords and isinstance(it.args[0], ast.Call) and isinstance(it.args[0].func, ast.Name)
+                and it.args[0].func.id == "range" and len(it.args[0].args) == 1 and not it.args[0].keywords
+                and isinstance(s.target, ast.Name)):
+            # for t in reversed(range(n))  ==  for _j in range(n): t = n - 1 - _j   (n must be pure: it is evaluated twice)
+            n_expr = it.args[0].args[0]
+            self.pure_expr(n_expr, env)
+            if s.target.id in self.may_assign(list(s.body)):
+                self.bad(s, "the loop variable is assigned inside the loop")
+            self.ntmp += 1
+            jvar = f"j{self.ntmp}_"
+            pre = [ast.Assign(targets=[ast.Name(id=s.target.id, ctx=ast.Store())],
+                              value=ast.BinOp(left=ast.BinOp(left=copy.deepcopy(n_expr), op=ast.Sub(), right=ast.Constant(1)),
+                                              op=ast.Sub(), right=ast.Name(id=jvar, ctx=ast.Load())))]
+            new = ast.For(target=ast.Name(id=jvar, ctx=ast.Store()),
+                          iter=ast.Call(func=ast.Name(id="range", ctx=ast.Load()), args=[copy.deepcopy(n_expr)], keywords=[]),
+                          body=pre + list(s.body), orelse=[])
+            for nd in [new] + pre:
+                ast.copy_location(nd, s)
             ast.fix_missing_locations(new)
             return self.s_For(new, rest, env, ctx)
         if (isinstance(it, ast.Call) and isinstance(it.func, ast.Name) and it.func.id == "zip" and len(it.args) == 2
@@ -2249,6 +2280,51 @@ CLIENTS["C08"].units += [
     c08_y("GenYTD3", "agilerl/algorithms/td3.py", "TD3", "learn", "TD3_learn_y", "q_value_next_state",
           "C08_translated_td3_target_is_model"),
 ]
+
+
+# ---- C17: the backward GAE loop of PPO.learn / IPPO._learn_individual (one-statement segments) ---------
+def is_squeeze(e, env):
+    return (isinstance(e, ast.Call) and not e.args and not e.keywords and isinstance(e.func, ast.Attribute)
+            and e.func.attr == "squeeze")
+
+
+def squeeze(tr, e, env, k):
+    return tr.expr(e.func.value, env, lambda c, t: k(f"t_squeeze {par(c)}", "T") if t == "T"
+                   else tr.bad(e, f".squeeze() of a value of type {t}"))
+
+
+C17_MIXED = {("S", "sub", "T"): ("s_sub_t", "T"), ("S", "mul", "T"): ("s_mul_t", "T"), ("S", "mul", "S"): ("s_mul", "S"),
+             ("T", "mul", "T"): ("t_mul", "T"), ("T", "add", "T"): ("t_add", "T"), ("T", "sub", "T"): ("t_sub", "T")}
+C17_CONTEXT = ("Context {Ten Sc : Type}.\n"
+               "Variables (t_add t_sub t_mul : Ten -> Ten -> Ten).   (* element-wise arithmetic on one time step (a row) *)\n"
+               "Variables (s_sub_t s_mul_t : Sc -> Ten -> Ten).      (* python float (op) row *)\n"
+               "Variable s_mul : Sc -> Sc -> Sc.                      (* python float * python float *)\n"
+               "Variable s_1 : Sc.                                    (* the literal 1.0 *)\n"
+               "Variable t_squeeze : Ten -> Ten.                      (* row.squeeze() *)")
+ROWS_T = ("list", "T")
+
+
+def c17_gae(section, file, cls, fn, coq, thm):
+    return Unit(file=file, section=section, context=C17_CONTEXT, carrier=Carrier(T="Ten"),
+                variables=["t_add", "t_sub", "t_mul", "s_sub_t", "s_mul_t", "s_mul", "s_1", "t_squeeze"],
+                mixed_ops=C17_MIXED, scalar_consts={1.0: "s_1"},
+                functions=[FnSpec(cls=cls, name=fn, coq=coq, fields=[("gamma", "S"), ("gae_lambda", "S")],
+                                  segment_stmt="for t in reversed(range(num_steps))",
+                                  segment_inputs=[("num_steps", "Z"), ("rewards", ROWS_T), ("values", ROWS_T),
+                                                  ("dones", ROWS_T), ("next_value", "T"), ("next_done", "T"),
+                                                  ("advantages", ROWS_T), ("last_gae_lambda", "T")],
+                                  segment_outputs=[("advantages", ROWS_T)], skip_params="*",
+                                  expr_matchers=[(is_squeeze, squeeze)], theorem=thm)])
+
+
+CLIENTS["C17"] = Client(
+    pid="C17",
+    imports="From Coq Require Import List ZArith Bool.\nImport ListNotations.\nFrom AgileV Require Import TR.PyLib.",
+    equiv="coq/gen/C17_equiv.v",
+    units=[c17_gae("GenGaePPO", "agilerl/algorithms/ppo.py", "PPO", "learn", "PPO_learn_gae",
+                   "C17_translated_ppo_gae_is_model"),
+           c17_gae("GenGaeIPPO", "agilerl/algorithms/ippo.py", "IPPO", "_learn_individual", "IPPO_learn_gae",
+                   "C17_translated_ippo_gae_is_model")])
 
 
 def translate_pid(pid: str, repo: Path):
